@@ -925,6 +925,16 @@ func After(d time.Duration) <-chan time.Time { Yield("timer"); return newTimer(d
 //go:norace
 func AfterFunc(d time.Duration, f func()) *Timer { Yield("timer"); return newTimer(d, f) }
 
+// Now is time.Now on the simulated clock (an arbitrary epoch plus simulated time).
+//
+//go:norace
+func Now() time.Time { return time.Unix(1_700_000_000, 0).Add(time.Duration(s.now)) }
+
+// Since is time.Since on the simulated clock.
+//
+//go:norace
+func Since(t time.Time) time.Duration { return Now().Sub(t) }
+
 // Sleep is time.Sleep on the simulated clock.
 //
 //go:norace
